@@ -3,12 +3,20 @@
 package mailbox
 
 import (
-	"errors"
 	"net"
 	"time"
 )
 
-var vErrTimeout = errors.New("verif: i/o timeout")
+// vErrTimeout is a deadline error as the net package reports it (net.Error
+// with Timeout() == true), so that code which tells timeouts from other
+// failures through errors.As / a type assertion sees one.
+type vTimeoutErr struct{}
+
+func (vTimeoutErr) Error() string   { return "verif: i/o timeout" }
+func (vTimeoutErr) Timeout() bool   { return true }
+func (vTimeoutErr) Temporary() bool { return true }
+
+var vErrTimeout error = vTimeoutErr{}
 
 // vMachines returns two Machines that completed a handshake: both hold the
 // same (symbolic) chaining key and ran the real split().
